@@ -438,6 +438,20 @@ def sx_setitem(x, k, v):
     x[k] = v
 
 
+def _is_pyint(x):
+    return isinstance(x, (int, _np.integer)) and not isinstance(x, (bool, _np.bool_))
+
+
+def sx_div(a, b):
+    """a / b.  Integer / integer is an exact rational while the engine is active (python would
+    round it to a double, which an exact-real claim then sees as a 1e-17 discrepancy)."""
+    if ENGINE.active and _is_pyint(a) and _is_pyint(b) and b != 0 and a % b != 0:
+        from .core import SymReal
+
+        return SymReal(rat(Fraction(int(a), int(b))))
+    return a / b
+
+
 def sx_jit(*a, **k):
     """numba decorators become the identity: the Python body is executed symbolically"""
     if len(a) == 1 and callable(a[0]) and not k:
@@ -717,6 +731,17 @@ class NumpyProxy:
         if has_sym(x) or has_sym(p):
             return _vec(lambda e, q: e**q, 2)(x, p)
         return _np.power(x, p, *a, **k)
+
+    def divide(self, a, b, *r, **k):
+        if ENGINE.active and not r and not k:
+            aa, bb = _np.asarray(a), _np.asarray(b)
+            if aa.dtype.kind in "iu" and bb.dtype.kind in "iu" and bb.all():
+                f = _np.frompyfunc(lambda x, y: sx_div(int(x), int(y)) if x % y else float(x // y), 2, 1)
+                res = f(aa, bb)
+                return demote(res) if isinstance(res, _np.ndarray) else res
+        return _np.divide(a, b, *r, **k)
+
+    true_divide = divide
 
     def exp(self, x, *a, **k):
         if has_sym(x):
